@@ -13,7 +13,7 @@ use std::collections::{BTreeMap, BTreeSet};
 pub static META24: Meta = Meta {
     id: "C24",
     level: "exploration",
-    rule: "histories of 10-40 operations (insert, insert_batch, update of an existing id, delete of live/absent ids, re-insert of a deleted id, rebuild) on an HnswIndex of dimension 1-8 with up to ~60 vectors (duplicates, small norms), for each of the 4 metrics; after every operation 3 searches with k in {1,3,10,live+2} and ef in {None,1,k,200}: at most k results, no repeated id, every id live in the history model, distances non-decreasing, each distance equal (rel. 1e-3 / abs. 1e-4, f32 arithmetic) to the exact metric distance between the query and the id's latest vector, and when live <= max(ef,k): exactly min(k,live) results whose distances are the brute-force k smallest; dot-product is decided on unit-norm data only; non-trivial = search on an index with >= 3 live vectors; distinct = history + query",
+    rule: "histories of 10-40 operations (insert, insert_batch, update of an existing id, delete of live/absent ids, re-insert of a deleted id, inserts the index must reject - wrong dimension / empty / zero norm - naming deleted, live or new ids, rebuild) on an HnswIndex of dimension 1-8 with up to ~60 vectors (duplicates, small norms), for each of the 4 metrics; after every operation 3 searches with k in {1,3,10,live+2} and ef in {None,1,k,200}: at most k results, no repeated id, every id live in the history model, distances non-decreasing, each distance equal (rel. 1e-3 / abs. 1e-4, f32 arithmetic) to the exact metric distance between the query and the id's latest vector, and when live <= max(ef,k): exactly min(k,live) results whose distances are the brute-force k smallest; dot-product is decided on unit-norm data only; non-trivial = search on an index with >= 3 live vectors; distinct = history + query",
     assumptions: &["exact distances from the crate's vector_ops functions (C26 checks those separately)", "search breadth = the ef passed, or the configured ef_search (50) when None"],
     floor: 100,
     watchdog: (20_000, 60_000),
@@ -168,6 +168,30 @@ fn run_hist(ctx: &mut Ctx, k: u64, c25: bool) {
             had_del_or_update = true;
             idx.delete(id);
             m.delete(id);
+        } else if roll == 16 && r.chance(1, 2) {
+            // an insert the index must reject (wrong dimension, empty vector, zero norm under cosine/dot):
+            // whatever id it names - deleted, live or new - nothing may change
+            let id = match r.below(4) {
+                0 | 1 if !m.deleted.is_empty() => *m.deleted.iter().next().unwrap_or(&0),
+                2 if !m.stored.is_empty() => m.stored[r.below(m.stored.len())].0,
+                _ => 90 + r.below(5),
+            };
+            let bad: Vec<f32> = match r.below(3) {
+                0 => vec![1.0; m.dim.max(1) + 1],
+                1 => Vec::new(),
+                _ => vec![0.0; m.dim.max(1)],
+            };
+            let expect_reject = bad.is_empty() || (m.dim != 0 && bad.len() != m.dim) || (bad.iter().all(|x| *x == 0.0) && matches!(metric, DistanceMetric::Cosine | DistanceMetric::DotProduct));
+            hist.push(format!("invalid-insert {id} {bad:?}"));
+            match idx.insert(id, &bad) {
+                Err(_) => {}
+                Ok(()) => {
+                    if expect_reject {
+                        ctx.count("obs:invalid_insert_accepted");
+                    }
+                    m.upsert(id, bad);
+                }
+            }
         } else if roll < 17 {
             // re-insert a deleted id
             if let Some(id) = m.deleted.iter().next().copied() {
@@ -236,6 +260,11 @@ fn run_hist(ctx: &mut Ctx, k: u64, c25: bool) {
                 let res = idx.search(v, live.len().max(1), Some(400));
                 let me = res.iter().find(|x| x.0 == *id);
                 let zero = exact(metric, v, v);
+                if me.is_none() {
+                    // the id is not returned at all: the approximate graph does not reach it (recall class)
+                    ctx.violation(k, "C25:live-id-missing:probe-with-its-own-vector", format!("a search for id {id}'s own vector (k = live, ef = 400) does not return id {id}"), wit(&hist, json!({"id": id})));
+                    return;
+                }
                 if !me.is_some_and(|x| close(x.1, zero)) {
                     ctx.violation(k, &format!("C25:stored-vector-is-not-the-latest:{mname}"), format!("searching for id {id}'s latest vector does not find it at distance ~0: {me:?}"), wit(&hist, json!({"id": id})));
                     return;
